@@ -61,6 +61,8 @@ def run_cases(ctx, cases, shard=150, nontrivial=None):
     """cases: list of (enc, op, args). Returns number of disagreements."""
     full = [list(enc) + [op] + list(args) for enc, op, args in cases]
     impl = run_harness("cal", [calgen.line(c) for c in full])
+    # kinds 10-13 = the same calendars RESTORED FROM A SAVED DOCUMENT in the implementation; the model knows one calendar
+    full = [model_case(c) for c in full]
     # heavy cases (ranges, eq) get small shards
     heavy = [i for i, (e, op, a) in enumerate(cases) if op in (20, 30, 31, 32, 15)]
     light = [i for i in range(len(cases)) if i not in set(heavy)]
@@ -83,7 +85,7 @@ def run_cases(ctx, cases, shard=150, nontrivial=None):
             sing = singles_of(enc, op, args)
             fs = [list(e) + [o] + list(x) for e, o, x in sing]
             sa = run_harness("cal", [calgen.line(c) for c in fs])
-            sb = coq_eval("Run.RunCal", "runCal", fs, ctx.work, shard=200, tag="drill")
+            sb = coq_eval("Run.RunCal", "runCal", [model_case(c) for c in fs], ctx.work, shard=200, tag="drill")
             for (e, o, x), p, q in zip(sing, sa, sb):
                 if p != q:
                     e2, o2, a2, ia, ib = e, o, x, p, q
@@ -97,6 +99,49 @@ def run_cases(ctx, cases, shard=150, nontrivial=None):
              "implementation": ia, "model": ib,
              "harness_cmd": "echo '%s' | harness/target/release/rlharness cal" % calgen.line(list(e2) + [o2] + list(a2))})
     return nbad
+
+
+def _skip_cal(c, i):
+    """index just after the calendar encoding starting at c[i]; rewrites document-loaded kinds in place"""
+    k = c[i]
+    if k >= 10:
+        k -= 10
+        c[i] = k
+    i += 1
+    if k in (4, 5):
+        return i + 1 + c[i]
+
+    def one(i):
+        i += 1 + c[i]
+        return i + 1 + c[i]
+    if k in (0, 3):
+        return one(i)
+    n = c[i]
+    i += 1
+    for _ in range(n):
+        i = one(i)
+    hs = c[i]
+    i += 1
+    if hs == 1:
+        n = c[i]
+        i += 1
+        for _ in range(n):
+            i = one(i)
+    return i
+
+
+def model_case(c):
+    """the case as the model sees it: a calendar restored from a document (kinds 10-13) is the calendar (kinds 0-3)"""
+    c = list(c)
+    if not c:
+        return c
+    try:
+        i = _skip_cal(c, 0)
+        if i < len(c) and c[i] == 20:
+            _skip_cal(c, i + 1)
+    except IndexError:
+        pass
+    return c
 
 
 def fmt_out(o, op=None):
@@ -116,7 +161,7 @@ def replay_case(ctx, rp):
     build_coq(["theories/Run/RunCal.vo"])
     c = list(rp["calendar_encoding"]) + [rp["op"]] + list(rp["args"])
     a = run_harness("cal", [calgen.line(c)])[0]
-    b = coq_eval("Run.RunCal", "runCal", [c], ctx.work)[0]
+    b = coq_eval("Run.RunCal", "runCal", [model_case(c)], ctx.work)[0]
     print("replay %s: implementation %s model %s" % (describe(rp["calendar_encoding"], rp["op"], rp["args"]), fmt_out(a), fmt_out(b)))
     ctx.cleanup()
     return 0 if a == b else 1
